@@ -118,12 +118,14 @@ Print Assumptions C07_same_geno_spec.
 Theorem C07_holds_pgen_sound :
   forall k, holds_pgen k = true ->
   geno_domb (pc_strict_half k) (pc_g k) = true -> chunk_dom (pc_cw k) -> chunk_dom (pc_cr k) ->
+  pc_wpre k = false -> pc_rpre k = false ->
   exists g', pc_back k = Ok g' /\ rt_rel (pc_g k) g'.
 Proof. exact holds_pgen_sound. Qed.
 Print Assumptions C07_holds_pgen_sound.
 
 Theorem C07_holds_vcf_sound :
   forall k, holds_vcf k = true -> geno_domb true (vc_g k) = true ->
+  vc_wpre k = false -> vc_rpre k = false ->
   exists g', vc_back k = Ok g' /\ rt_rel (vc_g k) g'.
 Proof. exact holds_vcf_sound. Qed.
 Print Assumptions C07_holds_vcf_sound.
